@@ -13,25 +13,25 @@ desc = {d["ID"]: d for d in json.loads(subprocess.check_output([BIN, "describe"]
 
 # id -> the deciding method, in a few words
 technique = {
- "C01": "loop-progress (stuck-cycle) analysis over SSA cycles, must-advance path rule for inline parsers, countdown-underflow contradiction rule, reachable-panic inventory, registry/type-assertion agreement",
- "C02": "constant evaluation and sibling cross-check of the numeric-character-reference decoders (base and length guard of every strconv.Parse call on a scanned digit run) + evaluation of the backslash-escapable byte set for all 256 values",
- "C16": "template extraction from the sink model's attribute contexts (id/href piece sequences compared across render functions) + dominance rules for the numbering discipline + stale-cursor (iterate-and-remove) rule",
+ "C01": "loop-progress (stuck-cycle) analysis over SSA cycles, must-advance path rule for inline parsers, countdown-underflow contradiction rule, reachable-panic inventory, registry/type-assertion agreement, window-guard coverage of constant-offset lookahead reads, compared-before-use rule for computed slice ends",
+ "C02": "constant evaluation and sibling cross-check of the numeric-character-reference decoders (base and length guard of every strconv.Parse call on a scanned digit run) + evaluation of the backslash-escapable byte set for all 256 values, typestate of the label normaliser, column-origin rule for indentation helpers in block parsers, Open-initialises-state rule for per-block context keys",
+ "C16": "template extraction from the sink model's attribute contexts (id/href piece sequences compared across render functions) + dominance rules for the numbering discipline + stale-cursor (iterate-and-remove) rule, no-loop rule for the numbering store, insertion-point rule of the list sort",
  "C03": "taint-to-sink dataflow over SSA with an HTML lexer-state dataflow over the constant writes (attribute contexts), dominance by the Unsafe flag, constant-vocabulary extraction, escape-table evaluation",
  "C04": "dominance/guard analysis of every href/src sink found by the lexer-state dataflow + same-value (SSA identity) rule between tested and written URL + constant evaluation of the predicate tables",
- "C05": "path enumeration over the SSA CFG of every tree mutator with paired-effect (count vs attach/detach) accounting, link-symmetry rule, who-may-call rule for raw link setters",
+ "C05": "path enumeration over the SSA CFG of every tree mutator with paired-effect (count vs attach/detach) accounting, link-symmetry rule, who-may-call rule for raw link setters, detached-node/ends/foreign-guard path rules, stale-cursor (iterate-and-unlink) rule for sibling and link-field cursors",
  "C06": "effect analysis over SSA + refined VTA call graph (stores into shared/node memory, nondeterminism sources, Convert shape)",
  "C07": "effect analysis: shared-memory write inventory + sync.Once discipline + init-only registries + thread-safe foreign receivers + C12",
- "C08": "symbolic linear-form rule on every reader.Advance argument in BlockParser.Open/Continue (never the whole peeked line) + who-may-call rule for AdvanceLine",
- "C09": "call-graph phase separation (AddReference only in the block phase, lookups only in the inline phase, block phase dominates inline phase) + first-definition-wins dominance rule",
- "C10": "option-flag use-shape analysis over SSA (each load of XHTML/HardWraps/Unsafe only as a branch between constant writes that differ as the statement allows) + option propagation/table agreement",
- "C11": "shape rule for GFM composition + path rule: only the width predicate may suppress the soft line break",
+ "C08": "symbolic linear-form rule on every reader.Advance argument in BlockParser.Open/Continue (never the whole peeked line) + who-may-call rule for AdvanceLine, blank-line guard rule for trigger-less block parsers, path rule for the block-quote marker and its one optional space",
+ "C09": "call-graph phase separation (AddReference only in the block phase, lookups only in the inline phase, block phase dominates inline phase) + first-definition-wins dominance rule, Open-initialises-state dominance rule for per-block context keys",
+ "C10": "option-flag use-shape analysis over SSA (each load of XHTML/HardWraps/Unsafe only as a branch between constant writes that differ as the statement allows) + option propagation/table agreement, path rule: every soft-break path consults HardWraps",
+ "C11": "shape rule for GFM composition + path rule: only the width predicate may suppress the soft line break, constant evaluation of extension trigger sets against the statement's characters, required-literal analysis of the table delimiter patterns",
  "C12": "ownership (freshness) dataflow over SSA for every []byte write site + copy-on-write typestate + unsafe inventory",
- "C13": "path enumeration over tree mutators (count/link pairing, symmetry, detach-before-attach) + finite-state exploration of the Walk helper's CFG x abstract status/error domain",
- "C14": "return-value provenance (Render returns Flush() or the walk error; Convert returns it) + single-output-channel rule over all sinks + no control flow on write results",
+ "C13": "path enumeration over tree mutators (count/link pairing, symmetry, detach-before-attach) + finite-state exploration of the Walk helper's CFG x abstract status/error domain, insertion-point rule for the in-place sort, loop invariant for the carried head",
+ "C14": "return-value provenance (Render returns Flush() or the walk error; Convert returns it) + single-output-channel rule over all sinks + no control flow on write results, origin rule for the BufWriter (caller's own or bufio.NewWriter of the caller's writer)",
  "C15": "postcondition rule on the id generator (returned id inserted under a miss-edge of a lookup of the same key, non-empty) + per-document table + must-serve dataflow in every heading parser's Close",
- "C17": "dominance rule on the table transformer (header width == alignments) + per-iteration path enumeration of the row builder (one cell per column index, bounded by len(alignments))",
+ "C17": "dominance rule on the table transformer (header width == alignments) + per-iteration path enumeration of the row builder (one cell per column index, bounded by len(alignments)), counter-continuity rule between the cell loops",
  "C18": "cache-coherence path rule on every reader method (each store to the cursor resets the derived caches) + restore-on-exit rule for the search helpers + sibling cross-check",
- "C19": "per-cycle byte-set evaluation of URLEscape (every verbatim byte admitted by the path facts, evaluated for all 256 values), freshness (no aliasing) rule for derived byte filters, constant evaluation of the lookup tables, no-argument-write rule for exported util functions",
+ "C19": "per-cycle byte-set evaluation of URLEscape (every verbatim byte admitted by the path facts, evaluated for all 256 values), freshness (no aliasing) rule for derived byte filters, constant evaluation of the lookup tables, no-argument-write rule for exported util functions, sibling/field-coverage rule for derived filters, exact-window-guard contradiction rule, typestate of the label normaliser",
  "C20": "dominance rules over the initialisers (sort dominates build, free parsers after all block parsers), comparator normal form, registration-loop direction, bounds-guarded dispatch",
 }
 
